@@ -52,6 +52,11 @@ FAULTS = [
     ("included:bad-index", ".include 'inc_badindex.s'"), ("included:unterminated-string", ".include 'inc_string.s'"),
     ("included:syntax", ".include 'inc_syntax.s'"), ("included:undefined", ".include 'inc_undef.s'"),
     ("included:nested-bad-suffix", ".include 'inc_outer.s'"),
+    # an undefined name on the right of `=` / as a macro argument whose parameter is never used, or shadows an outer symbol
+    ("undefined-symbol-rhs", "zz_s = zz_nowhere + 1"), ("undefined-symbol-rhs-used", "zz_s2 = zz_nowhere\nlda.w #zz_s2"),
+    ("undefined-deferred-arg-unused", ".macro zz_mu(a) {\nnop\n}\nzz_mu(zz_nowhere)"),
+    ("undefined-deferred-arg-shadowing", "zz_value = 0x0F\n.macro zz_set(zz_value) {\nlda.b #zz_value\n}\nzz_set(zz_nowhere)"),
+    ("undefined-symbol-rhs-shadowing", "zz_o = 5\n{\nzz_o = zz_nowhere\n.db zz_o\n}"),
     ("undefined-assign", "zz_x := zz_nowhere"), ("undefined-for-bound", ".for zz_i := 0, zz_nowhere {\nnop\n}"),
     # the program counter walks out of the last mapped bank (no *= onto an unmapped bank involved)
     ("run-off-mapped", "*=0x6FFFFC\n.dw 1, 2, 3, 4\nnop"),
